@@ -326,12 +326,14 @@ static Case gen_c10_alt() {
 static Result run_c11(const Case &c) {
     Result r;
     Base b;
-    make_base(b, c, 0);
+    int wenv = (int)c.get("wenv", 0), renv = (int)c.get("renv", 0);
+    make_base(b, c, wenv);           // the fragment may have been written with the historical CRC
     if (!b.ok) { if (b.err == "skip") r.skipped = true; else r.fail(b.err); return r; }
     int n = b.g.n();
     int fi = (int)(c.get("frag") % n);
     std::vector<uint8_t> f = b.s.frags[fi];
     size_t paylen = f.size() - 80;
+    if (env_legacy(wenv)) r.cls("legacy_written");
     // optionally overwrite fields that read the same both ways with asymmetric values (metadata query
     // only copies them; size and payload stay intact), then re-seal the native header
     if (c.get("asym")) {
@@ -349,11 +351,13 @@ static Result run_c11(const Case &c) {
     bool corrupt = c.get("corrupt") && paylen > 0;
     if (corrupt) { int64_t a = c.get("carg"); f[80 + (a % (paylen * 8)) / 8] ^= (uint8_t)(1u << (a % 8)); r.cls("payload_corrupted"); }
     std::vector<uint8_t> tw = f;
-    make_twin(tw.data());
+    make_twin(tw.data(), env_legacy(wenv) && (c.get("carg") & 1));
     ExactBuf fa(f), fb(tw);
     fragment_metadata_t ma, mb; memset(&ma, 0x11, sizeof ma); memset(&mb, 0x22, sizeof mb);
+    set_env(renv);
     int ra = liberasurecode_get_fragment_metadata(fa.p, &ma);
     int rb = liberasurecode_get_fragment_metadata(fb.p, &mb);
+    set_env(0);
     if (ra != 0) r.fail("native fragment rejected by the metadata query rc=" + std::to_string(ra));
     if (ra != rb) r.fail("return codes differ: native " + std::to_string(ra) + ", opposite-endian twin " + std::to_string(rb));
     if (ra == 0 && rb == 0) {
@@ -380,6 +384,8 @@ static Case gen_c11() {
     c.set("asym_seed", (int64_t)pick_seed());
     c.set("corrupt", coin() ? 1 : 0);
     c.set("carg", pick(0, 1 << 24));
+    c.set("wenv", weighted({5, 1, 1, 4, 1}));
+    c.set("renv", weighted({5, 1, 1, 3, 1}));
     return c;
 }
 
